@@ -29,7 +29,7 @@ DB_IDS = ['int1', 'mindsdb', 'files', 'proj', 'db2']
 STRINGS = ["'x'", "'hello world'", "''", "'a b'", "'2020-01-01'", "'Ünïcode'", "'%abc%'", "'a:b'",
            "'semi;colon'", "'dash--dash'", "'/* c */'", "'1'", '"dq"', '"d q"']
 INTS = ['0', '1', '2', '7', '10', '42', '100', '007', '123456789012345678901']
-FLOATS = ['0.5', '1.0', '3.14', '10.25', '00.50']
+FLOATS = ['0.5', '1.0', '3.14', '10.25', '00.50', '0.00001', '0.30000000000000004', '10000000000000000.0', '123456.78901234567', '0.0000001234']
 FUNCS = ['count', 'sum', 'max', 'min', 'avg', 'lower', 'upper', 'coalesce', 'abs', 'concat', 'my_func']
 CMP = ['=', '!=', '<>', '<', '<=', '>', '>=']
 ARITH = ['+', '-', '*', '/', '%']
@@ -62,7 +62,7 @@ def const(rng):
     if r < 0.35:
         return rng.choice(INTS[:7])
     if r < 0.5:
-        return rng.choice(FLOATS[:4])
+        return rng.choice(FLOATS[:4] + FLOATS[5:])
     if r < 0.85:
         return rng.choice(STRINGS)
     return rng.choice(['NULL', 'TRUE', 'FALSE', 'null', 'true'])
@@ -579,16 +579,43 @@ GARBAGE = ['x y', 'foo bar baz', ')', '(', ',', '1 2', 'select', 'from', 'where 
            '@', 'a.', '.b', 'not', '*', 'null null']
 
 
+COMMENTS = ['/**/', '/***/', '/** x **/', '/* a * b */', '/* / */', '/*/ x */', '-- c\n', '--\n', '/* multi\n line */', '/* -- */',
+            "/* ' */", '/* " */', "-- ' \n", '/* ; */', '/*\n*/', '/* x */ /* y */', '/****/', '/* */ */']
+NUMBER_EDGES = ['1.5e', '1e5', '1E-3', '.5', '5.', '0x1F', '1_000', '00', '007', '1.2.3', '9' * 25, '0.30000000000000004', '1e', '1.e5',
+                '1..2', '12345678901234567890.123456789012345678', '0.1000000000000000055511151231257827', '1.0else', '2.5E+10',
+                '123456789.12345678', '0.000001', '0.0000001', '1e-7', '9007199254740993', '1.7976931348623157e308', '1e999', '-0', '+1']
+
+
 def mutate(text, toks, rng, vocab):
     """One token-level mutation of `text` whose lexer tokens are `toks` (type, value, index, end, lineno).
     Returns (label, new_text)."""
     if not toks:
         return 'garbage', rng.choice(GARBAGE)
     k = rng.choice(['delete', 'dup', 'replace', 'insert', 'truncate', 'prefix', 'suffix', 'infix', 'swap', 'concat_garbage',
-                    'concat_stmt', 'unbalance'])
+                    'concat_stmt', 'unbalance', 'glue', 'relayout', 'comment', 'numedge', 'concat_long', 'comment_sandwich'])
     i = rng.randrange(len(toks))
     t = toks[i]
     piece = text[t[2]:t[3]]
+    # lexer-level mutations: the text between two tokens, or the spelling of a number
+    if k in ('glue', 'relayout', 'comment', 'comment_sandwich') and len(toks) > 1:
+        j = rng.randrange(len(toks) - 1)
+        a, b = toks[j], toks[j + 1]
+        if k == 'comment_sandwich':
+            # text that is NOT a comment, between two comments whose delimiters invite a lexer to run them together
+            first = rng.choice(['/** x **/', '/* x **/', '/*** x ***/', '/*/ x */', '/* x */', '/* * */', '/**/', '-- c\n', '/* \n **/'])
+            last = rng.choice(['/* y */', '/** y **/', '-- y', '/* y\n */', '/**/'])
+            return k, text[:a[3]] + ' ' + first + ' ' + rng.choice(GARBAGE) + ' ' + last + ('\n' if last.startswith('--') else ' ') + text[b[2]:]
+        if k == 'glue':
+            return k, text[:a[3]] + text[b[2]:]
+        if k == 'relayout':
+            return k, text[:a[3]] + rng.choice(['\n', '\r\n', '\t', '\n\n   ', ' \n', '\r', '\n\t\n']) + text[b[2]:]
+        return k, text[:a[3]] + ' ' + rng.choice(COMMENTS) + ' ' + text[b[2]:]
+    if k == 'numedge':
+        nums = [x for x in toks if x[0] in ('INTEGER', 'FLOAT')]
+        x = rng.choice(nums) if nums else t
+        return k, text[:x[2]] + rng.choice(NUMBER_EDGES) + text[x[3]:]
+    if k == 'concat_long':
+        return k, 'selec ' + ', '.join(f'c{n}' for n in range(rng.choice([30, 70, 130, 300]))) + ' from t1 ; ' + text
     if k == 'delete':
         return k, text[:t[2]] + text[t[3]:]
     if k == 'dup':
